@@ -5,6 +5,9 @@
 //   lin   linear::function_t over an in-memory dataset                 lin <op> <loss> <alpha> <l1> <l2> <batch> <threads> <data> ...
 //   gbias / gscale / ggrads   gboost::bias_function_t / scale_function_t / grads_function_t
 //   sfit / squad              quadratic_surrogate_fit_t / quadratic_surrogate_t (src/tuner/surrogate.cpp)
+//   linsub / gbiassub         as lin / gbias with the iterator over a subset of the samples: <data> is followed by <k> i1 … ik
+//   fbase hist                histories on one function_t: constrain (4 overloads) / valid / vgrad call counters / clear_statistics
+//   fn flags <id> <dims> <summands> -> ok size convex smooth mu;  dump sizes <maxd>;  loss batch4 (4-D samples)
 // Generic ops on an object `f` (every op line is self-contained):
 //   eval  <spec> <x>                 -> ok size f(x)[value only] f(x)[with gradient] g(x)
 //   cd|cvx <spec> <k> <p0> … <pk-1>  -> ok convex smooth mu f(p0)[value only] f(p0)[with gradient] g(p0) f(p1) … f(pk-1)
@@ -72,7 +75,18 @@ struct object_t
     bool                                               smooth{false};
     scalar_t                                           mu{0.0};
     std::string                                        extra; // parameters a model needs (appended to the aug line of `eval`)
+    std::shared_ptr<function_t>                        function; // set for the benchmark functions (monitor of nano::is_convex)
 };
+
+// every gradient buffer handed to the library is pre-filled with this value: a component that is still equal to it
+// afterwards was never written (the python oracle rejects it: key <object>:gradient-unwritten)
+constexpr double kSentinel = -7.2511e+77;
+
+void fill_sentinel(vector_t& gx, const tensor_size_t n)
+{
+    gx.resize(n);
+    gx.full(kSentinel);
+}
 
 scalar_t call(const function_t& f, const vector_t& x, vector_t* gx)
 {
@@ -82,7 +96,7 @@ scalar_t call(const function_t& f, const vector_t& x, vector_t* gx)
     }
     if (gx != nullptr)
     {
-        gx->resize(x.size());
+        fill_sentinel(*gx, x.size());
         return f.vgrad(x, *gx);
     }
     return f.vgrad(x);
@@ -96,6 +110,7 @@ object_t from_function(std::shared_ptr<function_t> f)
     o.smooth = f->smooth();
     o.mu     = f->strong_convexity();
     o.eval   = [f](const vector_t& x, vector_t* gx) { return call(*f, x, gx); };
+    o.function = f;
     return o;
 }
 
@@ -299,8 +314,9 @@ object_t parse_loss(toks_t& toks)
         loss->value(*targets, outputs, values);
         if (gx != nullptr)
         {
-            tensor4d_t vgrads;
-            loss->vgrad(*targets, outputs, vgrads);
+            tensor4d_t vgrads(1, n, 1, 1);
+            vgrads.full(kSentinel);
+            loss->vgrad(*targets, outputs, vgrads.tensor());
             gx->resize(n);
             gx->vector() = vgrads.vector();
         }
@@ -324,7 +340,7 @@ object_t from_constraint(std::shared_ptr<constraint_t> c, const tensor_size_t n)
         }
         if (gx != nullptr)
         {
-            gx->resize(n);
+            fill_sentinel(*gx, n);
             return ::nano::vgrad(*c, x, *gx);
         }
         return ::nano::vgrad(*c, x);
@@ -590,7 +606,8 @@ struct ml_ctx_t
     std::unique_ptr<function_t>         function;
 };
 
-std::shared_ptr<ml_ctx_t> make_ctx(toks_t& toks, const bool flatten)
+// `subset`: the data spec is followed by `<k> i1 … ik`, the (distinct) samples the iterator runs over, in this order
+std::shared_ptr<ml_ctx_t> make_ctx(toks_t& toks, const bool flatten, const bool subset = false)
 {
     auto       ctx     = std::make_shared<ml_ctx_t>();
     const auto lid     = toks.s();
@@ -607,6 +624,25 @@ std::shared_ptr<ml_ctx_t> make_ctx(toks_t& toks, const bool flatten)
     ctx->dataset = std::make_unique<dataset_t>(*ctx->source, threads);
     ctx->dataset->add<scalar_identity_generator_t>();
     ctx->samples = arange(0, ctx->dataset->samples());
+    if (subset)
+    {
+        const auto idx = toks.ints();
+        if (idx.empty() || static_cast<tensor_size_t>(idx.size()) > ctx->dataset->samples())
+        {
+            throw bad_op("subset size");
+        }
+        std::vector<bool> seen(static_cast<size_t>(ctx->dataset->samples()), false);
+        ctx->samples.resize(static_cast<tensor_size_t>(idx.size()));
+        for (size_t i = 0; i < idx.size(); ++i)
+        {
+            if (idx[i] < 0 || idx[i] >= ctx->dataset->samples() || seen[static_cast<size_t>(idx[i])])
+            {
+                throw bad_op("subset index");
+            }
+            seen[static_cast<size_t>(idx[i])]       = true;
+            ctx->samples(static_cast<tensor_size_t>(i)) = idx[i];
+        }
+    }
     if (flatten)
     {
         ctx->fiterator = std::make_unique<flatten_iterator_t>(*ctx->dataset, ctx->samples);
@@ -634,9 +670,9 @@ object_t from_ctx(const std::shared_ptr<ml_ctx_t>& ctx)
 }
 
 // lin <loss> <alpha> <batch> <threads> <data> <l1> <l2>
-object_t parse_lin(toks_t& toks)
+object_t parse_lin(toks_t& toks, const bool subset = false)
 {
-    auto       ctx = make_ctx(toks, true);
+    auto       ctx = make_ctx(toks, true, subset);
     const auto l1  = toks.f();
     const auto l2  = toks.f();
     if (!(l1 >= 0.0) || !(l2 >= 0.0))
@@ -647,9 +683,9 @@ object_t parse_lin(toks_t& toks)
     return from_ctx(ctx);
 }
 
-object_t parse_gbias(toks_t& toks)
+object_t parse_gbias(toks_t& toks, const bool subset = false)
 {
-    auto ctx      = make_ctx(toks, false);
+    auto ctx      = make_ctx(toks, false, subset);
     ctx->function = std::make_unique<gboost::bias_function_t>(*ctx->titerator, *ctx->loss);
     return from_ctx(ctx);
 }
@@ -752,7 +788,9 @@ object_t parse_object(const std::string& fam, toks_t& toks)
     if (fam == "loss") return parse_loss(toks);
     if (fam == "ct") return parse_ct(toks);
     if (fam == "lin") return parse_lin(toks);
+    if (fam == "linsub") return parse_lin(toks, true);
     if (fam == "gbias") return parse_gbias(toks);
+    if (fam == "gbiassub") return parse_gbias(toks, true);
     if (fam == "gscale") return parse_gscale(toks);
     if (fam == "ggrads") return parse_ggrads(toks);
     if (fam == "sfit") return parse_sfit(toks);
@@ -792,7 +830,7 @@ std::string op_eval(const object_t& o, toks_t& toks, std::string& aug)
     return out.str();
 }
 
-std::string op_points(const object_t& o, toks_t& toks)
+std::string op_points(const object_t& o, toks_t& toks, const bool monitor)
 {
     const auto k = toks.i64();
     if (k < 1 || k > 64)
@@ -815,6 +853,22 @@ std::string op_points(const object_t& o, toks_t& toks)
     for (size_t i = 1; i < pts.size(); ++i)
     {
         out << o.eval(pts[i], nullptr);
+    }
+    if (monitor && o.function && o.convex)
+    {
+        // run-time monitor of the library's own chord test (src/function/util.cpp: nano::is_convex, which uses the declared
+        // strong-convexity coefficient): it must accept every pair of a function whose declaration is truthful
+        int accepted = 1;
+        for (size_t i = 1; i < pts.size(); ++i)
+        {
+            const auto fz  = o.eval(pts[i], nullptr);
+            const auto eps = 1e-9 * (1.0 + std::fabs(f1) + std::fabs(fz)) + 1e-12 * (pts[0] - pts[i]).squaredNorm() * o.mu;
+            if (std::isfinite(f1) && std::isfinite(fz) && !is_convex(*o.function, pts[0], pts[i], 7, eps))
+            {
+                accepted = 0;
+            }
+        }
+        out << "isconvex" << accepted;
     }
     return out.str();
 }
@@ -940,10 +994,11 @@ std::string op_loss_sample(toks_t& toks)
     const auto targets = to_tensor4(tv, 1, n);
     const auto outputs = to_tensor4(ov, 1, n);
     tensor1d_t values, errors;
-    tensor4d_t vgrads;
+    tensor4d_t vgrads(targets.dims());
+    vgrads.full(kSentinel);
     loss->value(targets, outputs, values);
     loss->error(targets, outputs, errors);
-    loss->vgrad(targets, outputs, vgrads);
+    loss->vgrad(targets, outputs, vgrads.tensor());
     out_t out;
     out << "ok" << values(0);
     put_vec(out, vgrads.vector());
@@ -951,26 +1006,43 @@ std::string op_loss_sample(toks_t& toks)
     return out.str();
 }
 
-std::string op_loss_batch(toks_t& toks)
+// loss batch  <id> <alpha> <n> <m> <T> <O>              : m samples of shape (n, 1, 1)
+// loss batch4 <id> <alpha> <d1> <d2> <d3> <m> <T> <O>   : m samples of shape (d1, d2, d3) — the 4-D tensor interface: sample i is
+//                                                         the contiguous block [i * d1*d2*d3, (i+1) * d1*d2*d3) of the buffers
+std::string op_loss_batch(toks_t& toks, const bool four)
 {
     const auto id    = toks.s();
     const auto alpha = toks.f();
-    const auto n     = static_cast<tensor_size_t>(toks.i64());
+    const auto d1    = static_cast<tensor_size_t>(toks.i64());
+    const auto d2    = four ? static_cast<tensor_size_t>(toks.i64()) : tensor_size_t{1};
+    const auto d3    = four ? static_cast<tensor_size_t>(toks.i64()) : tensor_size_t{1};
     const auto m     = static_cast<tensor_size_t>(toks.i64());
     const auto tv    = toks.fs();
     const auto ov    = toks.fs();
-    if (n < 1 || m < 1 || static_cast<tensor_size_t>(tv.size()) != n * m || tv.size() != ov.size())
+    if (d1 < 1 || d2 < 1 || d3 < 1 || d1 > 64 || d2 > 64 || d3 > 64 || m < 1 || m > 4096)
     {
         throw bad_op("sizes");
     }
-    const auto loss    = make_loss(id, alpha);
-    const auto targets = to_tensor4(tv, m, n);
-    const auto outputs = to_tensor4(ov, m, n);
-    tensor1d_t values, errors;
-    tensor4d_t vgrads;
-    loss->value(targets, outputs, values);
-    loss->error(targets, outputs, errors);
-    loss->vgrad(targets, outputs, vgrads);
+    const auto n = d1 * d2 * d3;
+    if (static_cast<tensor_size_t>(tv.size()) != n * m || tv.size() != ov.size())
+    {
+        throw bad_op("sizes");
+    }
+    const auto loss = make_loss(id, alpha);
+    tensor4d_t targets(m, d1, d2, d3), outputs(m, d1, d2, d3);
+    for (tensor_size_t i = 0; i < n * m; ++i)
+    {
+        targets(i) = tv[static_cast<size_t>(i)];
+        outputs(i) = ov[static_cast<size_t>(i)];
+    }
+    tensor1d_t values(m), errors(m);
+    tensor4d_t vgrads(m, d1, d2, d3);
+    values.full(kSentinel);
+    errors.full(kSentinel);
+    vgrads.full(kSentinel);
+    loss->value(targets, outputs, values.tensor());
+    loss->error(targets, outputs, errors.tensor());
+    loss->vgrad(targets, outputs, vgrads.tensor());
     out_t out;
     out << "ok";
     put_vec(out, values.vector());
@@ -978,16 +1050,17 @@ std::string op_loss_batch(toks_t& toks)
     put_vec(out, vgrads.vector());
     // the same samples one at a time
     tensor1d_t svalues(m), serrors(m);
-    tensor4d_t svgrads(m, n, 1, 1);
+    tensor4d_t svgrads(m, d1, d2, d3);
     for (tensor_size_t s = 0; s < m; ++s)
     {
-        tensor4d_t t1(1, n, 1, 1), o1(1, n, 1, 1), g1;
+        tensor4d_t t1(1, d1, d2, d3), o1(1, d1, d2, d3), g1(1, d1, d2, d3);
         t1.vector() = targets.vector(s);
         o1.vector() = outputs.vector(s);
+        g1.full(kSentinel);
         tensor1d_t v1, e1;
         loss->value(t1, o1, v1);
         loss->error(t1, o1, e1);
-        loss->vgrad(t1, o1, g1);
+        loss->vgrad(t1, o1, g1.tensor());
         svalues(s)        = v1(0);
         serrors(s)        = e1(0);
         svgrads.vector(s) = g1.vector();
@@ -995,6 +1068,184 @@ std::string op_loss_batch(toks_t& toks)
     put_vec(out, svalues.vector());
     put_vec(out, serrors.vector());
     put_vec(out, svgrads.vector());
+    return out.str();
+}
+
+
+// ---- function_t base class: constrain / valid / call counters (src/function.cpp:58-146) -------------------------
+// fbase hist <id> <dims> <summands> <k> <op>*k   with the ops (every op answers `<ans> <#constraints> <#eq> <#ineq> <fcalls> <gcalls>`)
+//   cg <kind> <params>        constrain(constraint_t&&): constant|minimum|maximum <value> <dim>; ball-eq|ball-ineq <origin> <radius>;
+//                             linear-eq|linear-ineq <q> <r>; quadratic-eq|quadratic-ineq <rows> <cols> <P> <q> <r>;
+//                             functional-eq|functional-ineq <id> <dims>            ans = accepted (0/1)
+//   cb <min> <max>            constrain(min, max)                                  ans = accepted
+//   cd <min> <max> <dim>      constrain(min, max, dimension)                       ans = accepted
+//   cv <mins> <maxs>          constrain(const vector_t&, const vector_t&)          ans = accepted
+//   v <x>                     valid(x)                                             ans = 0/1
+//   e0 <x> / e1 <x>           vgrad(x) / vgrad(x, gx)                              ans = the value
+//   clr                       clear_statistics()                                   ans = 0
+matrix_t to_matrix(const dvec& v, const tensor_size_t rows, const tensor_size_t cols)
+{
+    if (rows < 0 || cols < 0 || rows > 64 || cols > 64 || static_cast<tensor_size_t>(v.size()) != rows * cols)
+    {
+        throw bad_op("matrix size");
+    }
+    matrix_t P(rows, cols);
+    for (tensor_size_t i = 0; i < rows * cols; ++i)
+    {
+        P(i) = v[static_cast<size_t>(i)];
+    }
+    return P;
+}
+
+constraint_t parse_constraint_raw(toks_t& toks)
+{
+    using namespace constraint;
+    const auto kind = toks.s();
+    if (kind == "constant" || kind == "minimum" || kind == "maximum")
+    {
+        const auto value = toks.f();
+        const auto dim   = static_cast<tensor_size_t>(toks.i64());
+        if (kind == "constant")
+        {
+            return constant_t{value, dim};
+        }
+        if (kind == "minimum")
+        {
+            return minimum_t{{value, dim}};
+        }
+        return maximum_t{{value, dim}};
+    }
+    if (kind == "ball-eq" || kind == "ball-ineq")
+    {
+        const auto origin = to_vector(toks.fs());
+        const auto radius = toks.f();
+        if (kind == "ball-eq")
+        {
+            return euclidean_ball_equality_t{{origin, radius}};
+        }
+        return euclidean_ball_inequality_t{{origin, radius}};
+    }
+    if (kind == "linear-eq" || kind == "linear-ineq")
+    {
+        const auto q = to_vector(toks.fs());
+        const auto r = toks.f();
+        if (kind == "linear-eq")
+        {
+            return linear_equality_t{{q, r}};
+        }
+        return linear_inequality_t{{q, r}};
+    }
+    if (kind == "quadratic-eq" || kind == "quadratic-ineq")
+    {
+        const auto rows = static_cast<tensor_size_t>(toks.i64());
+        const auto cols = static_cast<tensor_size_t>(toks.i64());
+        const auto P    = to_matrix(toks.fs(), rows, cols);
+        const auto q    = to_vector(toks.fs());
+        const auto r    = toks.f();
+        if (kind == "quadratic-eq")
+        {
+            return quadratic_equality_t{{P, q, r}};
+        }
+        return quadratic_inequality_t{{P, q, r}};
+    }
+    if (kind == "functional-eq" || kind == "functional-ineq")
+    {
+        const auto id    = toks.s();
+        const auto dims  = static_cast<tensor_size_t>(toks.i64());
+        const auto proto = function_t::all().get(id);
+        if (!proto || dims < 1 || dims > 256)
+        {
+            throw bad_op("unknown function " + id);
+        }
+        if (kind == "functional-eq")
+        {
+            return functional_equality_t{proto->make(dims, 3)};
+        }
+        return functional_inequality_t{proto->make(dims, 3)};
+    }
+    throw bad_op("unknown constraint kind " + kind);
+}
+
+std::string op_fbase_hist(toks_t& toks)
+{
+    const auto id       = toks.s();
+    const auto dims     = static_cast<tensor_size_t>(toks.i64());
+    const auto summands = static_cast<tensor_size_t>(toks.i64());
+    const auto k        = toks.i64();
+    const auto proto    = function_t::all().get(id);
+    if (!proto || dims < 1 || dims > 256 || summands < 1 || summands > 1000 || k < 0 || k > 256)
+    {
+        throw bad_op("fbase");
+    }
+    const auto f = proto->make(dims, summands);
+    out_t      out;
+    out << "ok" << f->size() << f->fcalls() << f->gcalls() << static_cast<long long>(f->constraints().size());
+    const auto point = [&]()
+    {
+        auto x = to_vector(toks.fs());
+        if (x.size() != f->size())
+        {
+            throw bad_op("point size");
+        }
+        return x;
+    };
+    for (int64_t i = 0; i < k; ++i)
+    {
+        const auto o = toks.s();
+        if (o == "cg")
+        {
+            out << (f->constrain(parse_constraint_raw(toks)) ? 1 : 0);
+        }
+        else if (o == "cb")
+        {
+            const auto lo = toks.f();
+            const auto hi = toks.f();
+            out << (f->constrain(lo, hi) ? 1 : 0);
+        }
+        else if (o == "cd")
+        {
+            const auto lo  = toks.f();
+            const auto hi  = toks.f();
+            const auto dim = static_cast<tensor_size_t>(toks.i64());
+            out << (f->constrain(lo, hi, dim) ? 1 : 0);
+        }
+        else if (o == "cv")
+        {
+            const auto lo = to_vector(toks.fs());
+            const auto hi = to_vector(toks.fs());
+            if (lo.size() < 1 || hi.size() < 1)
+            {
+                throw bad_op("empty bounds");
+            }
+            out << (f->constrain(lo, hi) ? 1 : 0);
+        }
+        else if (o == "v")
+        {
+            out << (f->valid(point()) ? 1 : 0);
+        }
+        else if (o == "e0")
+        {
+            out << f->vgrad(point());
+        }
+        else if (o == "e1")
+        {
+            const auto x = point();
+            vector_t   gx;
+            fill_sentinel(gx, x.size());
+            out << f->vgrad(x, gx);
+        }
+        else if (o == "clr")
+        {
+            f->clear_statistics();
+            out << 0;
+        }
+        else
+        {
+            throw bad_op("fbase op " + o);
+        }
+        out << static_cast<long long>(f->constraints().size()) << count_equalities(*f) << count_inequalities(*f)
+            << f->fcalls() << f->gcalls();
+    }
     return out.str();
 }
 
@@ -1008,6 +1259,27 @@ std::string op_dump(toks_t& toks)
     {
         const auto K = kinks_matrix(static_cast<tensor_size_t>(toks.i64()));
         out << K.rows() << K.cols() << flist_str(K.data(), K.size());
+        return out.str();
+    }
+    if (what == "sizes")
+    {
+        // function_t::size() of make(dims, summands) for every registered prototype and every requested dims 1..maxd
+        const auto maxd = toks.i64();
+        if (maxd < 1 || maxd > 256)
+        {
+            throw bad_op("dump sizes");
+        }
+        const auto ids = function_t::all().ids();
+        out << static_cast<long long>(ids.size());
+        for (const auto& id : ids)
+        {
+            const auto proto = function_t::all().get(id);
+            out << id;
+            for (int64_t dims = 1; dims <= maxd; ++dims)
+            {
+                out << proto->make(static_cast<tensor_size_t>(dims), 3)->size();
+            }
+        }
         return out.str();
     }
     if (what != "flags")
@@ -1085,19 +1357,40 @@ std::string vh::execute(toks_t& toks, std::string& aug)
     {
         return op_loss_sample(toks);
     }
-    if (fam == "loss" && op == "batch")
+    if (fam == "loss" && (op == "batch" || op == "batch4"))
     {
-        return op_loss_batch(toks);
+        return op_loss_batch(toks, op == "batch4");
+    }
+    if (fam == "fbase" && op == "hist")
+    {
+        auto res = op_fbase_hist(toks);
+        if (!toks.done())
+        {
+            throw bad_op("trailing tokens");
+        }
+        return res;
     }
     const auto object = parse_object(fam, toks);
     std::string res;
-    if (op == "eval")
+    if (op == "flags")
+    {
+        // fn flags <id> <dims> <summands> -> ok size convex smooth mu   (aug: the construction-time parameters)
+        out_t out;
+        out << "ok" << object.size;
+        put_flags(out, object);
+        if (!object.extra.empty())
+        {
+            aug += " " + object.extra;
+        }
+        res = out.str();
+    }
+    else if (op == "eval")
     {
         res = op_eval(object, toks, aug);
     }
     else if (op == "cd" || op == "cvx")
     {
-        res = op_points(object, toks);
+        res = op_points(object, toks, op == "cvx" && fam == "fn");
     }
     else if (op == "climb")
     {
